@@ -36,6 +36,9 @@ pub enum C18Case {
         /// three-column BED (1), also with a trailing blank (2) or a trailing tab (3) on every line
         #[serde(default)]
         tail: u8,
+        /// extra bytes on the long line (byte granularity; `long_line` pads in steps of 12)
+        #[serde(default)]
+        extra_pad: usize,
     },
     /// FileView over a 10-byte file: window [a, b)
     View { a: u64, b: u64, depth: usize },
@@ -45,14 +48,14 @@ pub struct C18;
 
 const NAMES: [&str; 4] = ["chrA", "chrB", "chrC", "chrD"];
 
-fn text_lines(runs: &[(usize, usize)], long_line: Option<(usize, usize)>, bed: bool, utf8: bool) -> Vec<String> {
+fn text_lines(runs: &[(usize, usize)], long_line: Option<(usize, usize)>, bed: bool, utf8: bool, extra_pad: usize) -> Vec<String> {
     let mut lines = vec![];
     let mut n = 0usize;
     for (ci, len) in runs {
         for j in 0..*len {
             let s = 10 * j + 1;
             let pad = match long_line {
-                Some((at, factor)) if at == n => factor * 12,
+                Some((at, factor)) if at == n => factor * 12 + extra_pad,
                 _ => 0,
             };
             if bed && utf8 {
@@ -138,8 +141,8 @@ fn records_view(path: &std::path::Path, start: u64, end: u64, bed: bool) -> Vec<
     v
 }
 
-fn c18_text(runs: &[(usize, usize)], long_line: Option<(usize, usize)>, final_newline: bool, bed: bool, utf8: bool, crlf: bool, tail: u8, out: &mut Outcome) {
-    let mut lines = text_lines(runs, long_line, bed, utf8);
+fn c18_text(runs: &[(usize, usize)], long_line: Option<(usize, usize)>, final_newline: bool, bed: bool, utf8: bool, crlf: bool, tail: u8, extra_pad: usize, out: &mut Outcome) {
+    let mut lines = text_lines(runs, long_line, bed, utf8, extra_pad);
     if tail > 0 {
         // the minimal BED: chromosome, start, end and nothing else
         for l in lines.iter_mut() {
@@ -621,7 +624,7 @@ impl Check for C18 {
     fn cases(&self, tier: Tier) -> Box<dyn Iterator<Item = C18Case> + '_> {
         let quick = tier == Tier::Quick;
         let mut v = vec![];
-        let shapes: Vec<Vec<(usize, usize)>> = run_shapes(4, if quick { 3 } else { 4 }).into_iter().chain(nongrouped_shapes().into_iter()).chain(unsorted_grouped_shapes().into_iter()).collect();
+        let shapes: Vec<Vec<(usize, usize)>> = run_shapes(4, if quick { 3 } else { 5 }).into_iter().chain(nongrouped_shapes().into_iter()).chain(unsorted_grouped_shapes().into_iter()).collect();
         for runs in shapes {
             let nlines: usize = runs.iter().map(|r| r.1).sum();
             let mut longs: Vec<Option<(usize, usize)>> = vec![None];
@@ -645,26 +648,36 @@ impl Check for C18 {
                         if quick && bed && ll.is_some() && !final_newline {
                             continue;
                         }
-                        v.push(C18Case::Text { runs: runs.clone(), long_line: ll, final_newline, bed, utf8: false, crlf: false, tail: 0 });
+                        v.push(C18Case::Text { runs: runs.clone(), long_line: ll, final_newline, bed, utf8: false, crlf: false, tail: 0, extra_pad: 0 });
                         if ll.is_none() || ll.map(|x| x.1) == Some(3) {
-                            v.push(C18Case::Text { runs: runs.clone(), long_line: ll, final_newline, bed, utf8: false, crlf: true, tail: 0 });
+                            v.push(C18Case::Text { runs: runs.clone(), long_line: ll, final_newline, bed, utf8: false, crlf: true, tail: 0, extra_pad: 0 });
                         }
                         if bed && ll.is_none() {
                             for (tail, crlf) in [(1u8, false), (1, true), (2, false), (3, false), (2, true)] {
-                                v.push(C18Case::Text { runs: runs.clone(), long_line: ll, final_newline, bed, utf8: false, crlf, tail });
+                                v.push(C18Case::Text { runs: runs.clone(), long_line: ll, final_newline, bed, utf8: false, crlf, tail, extra_pad: 0 });
                             }
                         }
                         if bed && final_newline && (ll.is_none() || ll.map(|x| x.1) == Some(3)) {
-                            v.push(C18Case::Text { runs: runs.clone(), long_line: ll, final_newline, bed, utf8: true, crlf: false, tail: 0 });
+                            v.push(C18Case::Text { runs: runs.clone(), long_line: ll, final_newline, bed, utf8: true, crlf: false, tail: 0, extra_pad: 0 });
                         }
                     }
                 }
             }
         }
+        // every alignment of a line end relative to the readers' 8 KiB buffers: a line of 16 200 ..
+        // 16 600 bytes (step 1 byte; quick: step 2) at the start of a file of three runs, so that the
+        // indexer's first probe lands in it 8 100 .. 8 300 bytes before its end, and the same line
+        // as the first line of the second run
+        for extra_pad in (0..=400usize).step_by(if quick { 2 } else { 1 }) {
+            for (runs, at) in [(vec![(0usize, 2usize), (1, 2), (2, 1)], 0usize), (vec![(0, 1), (1, 2), (2, 2)], 1)] {
+                let bed = extra_pad % 4 < 2;
+                v.push(C18Case::Text { runs, long_line: Some((at, 1350)), final_newline: true, bed, utf8: false, crlf: false, tail: 0, extra_pad });
+            }
+        }
         // one larger file: many lines per run, so that probes land well inside runs
         for final_newline in [true, false] {
-            v.push(C18Case::Text { runs: vec![(0, 40), (1, 1), (2, 25), (3, 2)], long_line: Some((41, 40)), final_newline, bed: false, utf8: false, crlf: false, tail: 0 });
-            v.push(C18Case::Text { runs: vec![(0, 40), (1, 1), (2, 25), (3, 2)], long_line: Some((41, 40)), final_newline, bed: true, utf8: true, crlf: false, tail: 0 });
+            v.push(C18Case::Text { runs: vec![(0, 40), (1, 1), (2, 25), (3, 2)], long_line: Some((41, 40)), final_newline, bed: false, utf8: false, crlf: false, tail: 0, extra_pad: 0 });
+            v.push(C18Case::Text { runs: vec![(0, 40), (1, 1), (2, 25), (3, 2)], long_line: Some((41, 40)), final_newline, bed: true, utf8: true, crlf: false, tail: 0, extra_pad: 0 });
         }
         let depth = if quick { 2 } else { 3 };
         for a in 0..=10u64 {
@@ -676,7 +689,7 @@ impl Check for C18 {
     }
     fn run(&self, case: &C18Case, out: &mut Outcome) {
         match case {
-            C18Case::Text { runs, long_line, final_newline, bed, utf8, crlf, tail } => c18_text(runs, *long_line, *final_newline, *bed, *utf8, *crlf, *tail, out),
+            C18Case::Text { runs, long_line, final_newline, bed, utf8, crlf, tail, extra_pad } => c18_text(runs, *long_line, *final_newline, *bed, *utf8, *crlf, *tail, *extra_pad, out),
             C18Case::View { a, b, depth } => c18_view(*a, *b, *depth, out),
         }
     }
